@@ -22,6 +22,8 @@ VERIF_KINDS = [
     ("index out of bounds", "bounds"),
     ("unreachable", "unreachable-panic"),
     ("assert_forall_by", "proof-step"),
+    ("unable to prove post-condition of closure", "closure-ensures"),
+    ("unable to prove pre-condition of closure", "closure-requires"),
 ]
 
 
